@@ -219,10 +219,13 @@ pub fn execute(base: &CrashBase, k: u64, stalls: &[(u64, u64)]) -> RunOutcome<Cr
                 None
             }
         });
-        vrp_core::verif::set_insertion_observer(Some(std::rc::Rc::new(move |ctx: &InsertionContext| {
+        vrp_core::verif::set_insertion_observer(Some(std::rc::Rc::new(move |ctx: &InsertionContext, site: vrp_core::verif::InsertionSite| {
+                if site != vrp_core::verif::InsertionSite::Applied {
+                    return;
+                }
             INSERTIONS.fetch_add(1, Ordering::SeqCst);
             if let Some(t) = tracer.as_ref() {
-                t(ctx);
+                t(ctx, site);
             }
             if quota_dbg && FLIPPED.load(Ordering::SeqCst) == 1 {
                 FLIPPED.store(2, Ordering::SeqCst);
